@@ -40,6 +40,9 @@ func init() {
 	streams["engine-c02"] = func(t *testing.T, o *Out) {
 		streamEngine(t, o, EngProfile{Name: "c02", DepthGrid: true})
 	}
+	streams["engine-c11"] = func(t *testing.T, o *Out) {
+		streamEngine(t, o, EngProfile{Name: "c11", LimitsLoose: true, Conforming: true})
+	}
 	streams["engine-c03"] = func(t *testing.T, o *Out) {
 		streamEngine(t, o, EngProfile{Name: "c03", LimitsLoose: true, Faults: true})
 	}
@@ -62,7 +65,7 @@ func streamEngine(t *testing.T, o *Out, p EngProfile) {
 			o.Count("dropped:cost")
 			return calls
 		}
-		impl := fmt.Sprintf("res=%s\tcalls=%d", res, calls)
+		impl := fmt.Sprintf("res=%s\tcalls=%d\topl=%d", res, calls, b2i(c.ViaOPL))
 		if withConc {
 			cres, _ := env.runCheck(c, false)
 			impl += "\tcres=" + cres
